@@ -144,11 +144,30 @@ static void *hoarder(void *arg)
     }
     return NULL;
 }
+/* a stripe of the shared instance written while the legacy-CRC switch was on (headers and payload checksums in the
+ * historical flavour): shared users read it while other threads read and write standard-flavour stripes, so that both
+ * flavours are being validated at the same time */
+static char **leg_d, **leg_p; static uint64_t leg_flen; static char leg_data[777];
+static void legacy_read(int t, int it)
+{
+    char *frags[64], *out = NULL; uint64_t olen = 0; int i, n = 0, rc; fragment_metadata_t md;
+    if (!leg_d) return;
+    for (i = 1; i < shared_k + shared_m; i++) frags[n++] = i < shared_k ? leg_d[i] : leg_p[i - shared_k];
+    rc = liberasurecode_decode(shared_desc, frags, n, leg_flen, it & 1, &out, &olen);
+    if (rc != 0 || olen != sizeof leg_data || memcmp(out, leg_data, sizeof leg_data) != 0) fail("decode of a legacy-flavour stripe differs from the sequential result", t, it, rc);
+    if (rc == 0) liberasurecode_decode_cleanup(shared_desc, out);
+    rc = liberasurecode_get_fragment_metadata(leg_p[0], &md);
+    if (rc != 0 || md.chksum_mismatch != 0) fail("metadata query on a legacy-flavour fragment differs from the sequential result", t, it, rc);
+    if (is_invalid_fragment(shared_desc, leg_d[0]) != 0) fail("legacy-flavour fragment judged invalid", t, it, 0);
+}
 static void *shared_user(void *arg)
 {
     int t = (int)(long)arg, it; uint64_t s = seed0 * 7777 + t;
     pthread_barrier_wait(&bar);
-    for (it = 0; it < iters * 2; it++) roundtrip(shared_desc, shared_k, shared_m, shared_tol, &s, 100 + t, it);
+    for (it = 0; it < iters * 2; it++) {
+        if (t % 2 == 0 || it % 3 == 0) roundtrip(shared_desc, shared_k, shared_m, shared_tol, &s, 100 + t, it);
+        legacy_read(100 + t, it); legacy_read(100 + t, it + 1);
+    }
     return NULL;
 }
 
@@ -166,13 +185,19 @@ int main(int argc, char **argv)
         else if (mode & 1) { a.k = 5; a.m = 5; a.hd = 3; a.ct = CHKSUM_CRC32; shared_k = 5; shared_m = 5; shared_tol = 2; shared_desc = liberasurecode_instance_create(EC_BACKEND_FLAT_XOR_HD, &a); }
         else { a.k = 4; a.m = 2; a.hd = 2; a.ct = CHKSUM_CRC32; shared_desc = liberasurecode_instance_create(EC_BACKEND_LIBERASURECODE_RS_VAND, &a); }
         if (shared_desc <= 0) { printf("{\"error\":\"cannot create shared instance\"}\n"); return 2; }
+        {
+            int q; for (q = 0; q < (int)sizeof leg_data; q++) leg_data[q] = (char)(0x80 + q * 7);
+            setenv("LIBERASURECODE_WRITE_LEGACY_CRC", "1", 1);
+            if (liberasurecode_encode(shared_desc, leg_data, sizeof leg_data, &leg_d, &leg_p, &leg_flen) != 0) leg_d = NULL;
+            unsetenv("LIBERASURECODE_WRITE_LEGACY_CRC");
+        }
     }
     pthread_barrier_init(&bar, NULL, n_creators + n_shared);
     pthread_barrier_init(&hbar, NULL, n_creators > 0 ? n_creators : 1);
     for (i = 0; i < n_creators; i++) pthread_create(&th[n++], NULL, (mode & 8) ? hoarder : creator, (void *)(long)i);
     for (i = 0; i < n_shared; i++) pthread_create(&th[n++], NULL, shared_user, (void *)(long)i);
     for (i = 0; i < n; i++) pthread_join(th[i], NULL);
-    if (n_shared > 0) liberasurecode_instance_destroy(shared_desc);
+    if (n_shared > 0) { if (leg_d) liberasurecode_encode_cleanup(shared_desc, leg_d, leg_p); liberasurecode_instance_destroy(shared_desc); }
     printf("{\"creators\":%d,\"shared\":%d,\"iters\":%d,\"mode\":%d,\"ops\":%ld,\"errors\":%ld,\"dup_desc\":%ld,\"first_error\":\"%s\"}\n",
            n_creators, n_shared, iters, mode, ops, errors, dup_desc, first_error);
     return errors ? 1 : 0;
